@@ -1,12 +1,151 @@
 import Driver.Util
-/-! Driver section for C19 (stub until the model is online). -/
+import RxnModel.Model.Search
+import RxnModel.Model.Heap
+import RxnModel.Model.Merge
+import RxnModel.Model.ZipTree
+import RxnModel.Model.Containers
+/-! Driver section for C19: in-memory ordered structures (one state per case, ops prefixed by structure). -/
 namespace Driver.C19
 open Rxn Driver
 
-def step (st : Unit) : List String → Unit × String
+structure St where
+  zip : ZipTree.Tree := .nil
+  heap : Array HeapItems.Item := #[]
+  ppq : PPQ.Q := ⟨#[], #[]⟩
+  cache : SortedCache.Cache := {}
+  sets : Array OSet.S := Array.replicate 4 {}
+  smap : SortedMap.M := {}
+
+def csv (s : String) : List String := if s == "_" then [] else s.splitOn ","
+def nats (s : String) : List Nat := (csv s).map natOr
+
+def showKV (l : List (Bytes × Bytes)) : String :=
+  if l.isEmpty then "list" else "list " ++ joinWith "," (l.map fun e => toHex e.1 ++ "=" ++ toHex e.2)
+def showNats (l : List Nat) : String :=
+  if l.isEmpty then "list" else "list " ++ joinWith "," (l.map toString)
+def showOptNat : Option Nat → String
+  | none => "none"
+  | some n => s!"some {n}"
+/-- property-level view of a popped item: its priority (which of several equal ones is the heap's tie-breaking,
+observed separately through `h.dump` / `q.idx`) -/
+def showHItem : Option HeapItems.Item → String
+  | none => "none"
+  | some x => s!"{x.prio}"
+def showQItem : Option PPQ.Item → String
+  | none => "none"
+  | some x => s!"{x.prio}"
+
+def parseEntry (s : String) : Merge.Entry :=
+  match s.splitOn ":" with
+  | [k, q, v] => ⟨hexOr k, natOr q, hexOr v⟩
+  | _ => ⟨[], 0, []⟩
+def parseRuns (s : String) : List (List Merge.Entry) :=
+  if s == "!" then [] else (s.splitOn "|").map fun r => (csv r).map parseEntry
+def showEntries : Option (List Merge.Entry) → String
+  | none => "panic"
+  | some l => if l.isEmpty then "list" else
+      "list " ++ joinWith "," (l.map fun e => toHex e.key ++ ":" ++ toString e.seq ++ ":" ++ toHex e.val)
+
+/-- sort every block of adjacent equal keys by (seq, val): order among equal keys is not part of the property -/
+def canon (l : List Merge.Entry) : List Merge.Entry :=
+  ((l.splitBy fun a b => a.key == b.key).map fun g =>
+    g.mergeSort fun a b => a.seq < b.seq || (a.seq == b.seq && Bytes.cmp a.val b.val != .gt)).flatten
+
+def entryCmp (a b : Merge.Entry) : Int := Gen.c19AscendingEntries Merge.Entry.key a b
+def pickOf (mode : String) : Merge.Entry → Merge.Entry → Merge.Entry :=
+  match mode with
+  | "newest" => Gen.c19KeepNewest Merge.Entry.seq
+  | "first" => fun a _ => a
+  | "second" => fun _ b => b
+  | _ => fun a _ => { a with seq := a.seq + 1000000 }   -- "bad": a value that is neither argument
+
+def intCmp (t : Int) (x : Int) : Int := if x < t then -1 else if x > t then 1 else 0
+
+def getSet (st : St) (r : String) : OSet.S := st.sets.getD (natOr r) {}
+def putSet (st : St) (r : String) (s : OSet.S) : St := { st with sets := st.sets.setIfInBounds (natOr r) s }
+
+def step (st : St) : List String → St × String
+  -- zip tree
+  | ["z.put", k, v, rank] =>
+    let r := ZipTree.put (hexOr k) (hexOr v) (natOr rank) st.zip
+    ({ st with zip := r.2 }, optHex r.1)
+  | ["z.get", k] => (st, optHex (ZipTree.get (hexOr k) st.zip))
+  | ["z.asc", p] => (st, showKV (ZipTree.ascendPrefix st.zip (hexOr p)))
+  | ["z.inv"] =>
+    (st, if ZipTree.keysAscending (ZipTree.toList st.zip) && ZipTree.ranksOk st.zip then
+      s!"ok {ZipTree.size st.zip}" else "bad")
+  -- heap
+  | ["h.push", p, id] =>
+    let h := Heap.push HeapItems.ilt st.heap ⟨natOr p, natOr id⟩
+    ({ st with heap := h }, s!"size {h.size}")
+  | ["h.pop"] =>
+    match Heap.pop HeapItems.ilt st.heap with
+    | none => (st, "none")
+    | some (x, h) => ({ st with heap := h }, showHItem (some x))
+  | ["h.peek"] => (st, showHItem (Heap.peek st.heap))
+  | ["h.size"] => (st, toString st.heap.size)
+  | ["h.fix", id, p] =>
+    let h := HeapItems.reprio st.heap (natOr id) (natOr p)
+    ({ st with heap := h }, showOptNat (HeapItems.indexOf h (natOr id)))
+  | ["h.idx", id] => (st, showOptNat (HeapItems.indexOf st.heap (natOr id)))
+  | ["h.dump"] => (st, showNats (st.heap.toList.map (·.id)))
+  -- partitioned priority queue
+  | ["q.new", n] => ({ st with ppq := PPQ.new (Array.replicate (natOr n) []) }, "ok")
+  | ["q.push", p, part, id] => ({ st with ppq := PPQ.push st.ppq ⟨natOr p, natOr part, natOr id⟩ }, "ok")
+  | ["q.del", p, part, id] => ({ st with ppq := PPQ.delete st.ppq ⟨natOr p, natOr part, natOr id⟩ }, "ok")
+  | ["q.pop"] => let r := PPQ.pop st.ppq; ({ st with ppq := r.2 }, showQItem r.1)
+  | ["q.peek"] => (st, showQItem (PPQ.peek st.ppq))
+  | ["q.empty"] => (st, toString (PPQ.isEmpty st.ppq))
+  | ["q.idx"] =>
+    (st, showNats ((List.range st.ppq.parts.size).map (PPQ.indexOf st.ppq.heap)))
+  -- sorted cache
+  | ["c.new", m] => ({ st with cache := { maxSize := natOr m } }, "ok")
+  | ["c.push", v] => ({ st with cache := SortedCache.push st.cache (hexOr v) }, "ok")
+  | ["c.pop"] => let r := SortedCache.pop st.cache; ({ st with cache := r.2 }, optHex r.1)
+  | ["c.poplast"] => let r := SortedCache.popLast st.cache; ({ st with cache := r.2 }, optHex r.1)
+  | ["c.peek"] => (st, optHex (SortedCache.peek st.cache))
+  | ["c.peeklast"] => (st, optHex (SortedCache.peekLast st.cache))
+  | ["c.del", k] => ({ st with cache := SortedCache.delete st.cache (hexOr k) }, "ok")
+  | ["c.empty"] => (st, toString (SortedCache.isEmpty st.cache))
+  | ["c.full"] => (st, toString (SortedCache.isFull st.cache))
+  | ["c.bytes"] => (st, toString st.cache.byteSize)
+  | ["c.sum"] => (st, "ok")      -- spec: C19.sortedCache_accounting (byteSize = sum of the cached lengths)
+  -- insertion-ordered set
+  | ["s.add", r, vs] => (putSet st r (OSet.add (getSet st r) (nats vs)), "ok")
+  | ["s.added", r, d, vs] => (putSet st d (OSet.add (getSet st r) (nats vs)), "ok")
+  | ["s.without", r, d, vs] => (putSet st d (OSet.without (getSet st r) (nats vs)), "ok")
+  | ["s.diff", a, b, d] => (putSet st d (OSet.diff (getSet st a) (getSet st b)), "ok")
+  | ["s.has", r, v] => (st, toString (OSet.has (getSet st r) (natOr v)))
+  | ["s.size", r] => (st, toString (OSet.size (getSet st r)))
+  | ["s.slice", r] => (st, showNats (getSet st r).l)
+  -- sorted map
+  | ["m.set", k, v] => let r := SortedMap.set st.smap (natOr k) (natOr v); ({ st with smap := r.2 }, toString r.1)
+  | ["m.get", k] => (st, showOptNat (SortedMap.get st.smap (natOr k)))
+  | ["m.has", k] => (st, toString (SortedMap.has st.smap (natOr k)))
+  | ["m.keys"] => let r := SortedMap.keys st.smap; ({ st with smap := r.2 }, showNats r.1)
+  | ["m.values"] => let r := SortedMap.values st.smap; ({ st with smap := r.2 }, showNats r.1)
+  | ["m.all"] =>
+    let r := SortedMap.all st.smap
+    ({ st with smap := r.2 }, if r.1.isEmpty then "list" else "list " ++ joinWith "," (r.1.map fun e => s!"{e.1}={e.2}"))
+  | ["m.del", k] => let r := SortedMap.delete st.smap (natOr k); ({ st with smap := r.2 }, toString r.1)
+  | ["m.size"] => (st, toString (SortedMap.size st.smap))
+  -- merges
+  | ["mg.kv", runs] => (st, showEntries (Merge.merge entryCmp (pickOf "newest") (parseRuns runs)))
+  | ["mg.gen", mode, runs] => (st, showEntries (Merge.merge entryCmp (pickOf mode) (parseRuns runs)))
+  | ["ms.merge", runs] => (st, showEntries (some (canon (Merge.mergeSorted entryCmp (parseRuns runs)))))
+  | ["ms.raw", runs] => (st, showEntries (some (Merge.mergeSorted entryCmp (parseRuns runs))))
+  -- unique binary search
+  | ["su.bytes", t, xs] => (st, showOptNat (Search.searchBytes ((csv xs).map hexOr).toArray (hexOr t)))
+  | ["su.int", t, xs] =>
+    (st, showOptNat (Search.searchUnique ((nats xs).map Int.ofNat).toArray (intCmp (Int.ofNat (natOr t)))))
+  | ["su.tbl", key, ts] =>
+    let tbls := (csv ts).map fun s => match s.splitOn ":" with
+      | [a, b] => (hexOr a, hexOr b)
+      | _ => ([], [])
+    (st, showOptNat (Search.searchTables tbls.toArray (hexOr key)))
   | _ => (st, "bad-op")
 
 def handle (lines : Array String) (i : Nat) (out : Array String) : Nat × Array String :=
-  runLines step () lines i out
+  runLines step {} lines i out
 
 end Driver.C19
